@@ -94,7 +94,8 @@ struct Expect {
 }
 
 fn limits_text(style: usize, j: usize) -> (Option<String>, f64, f64, bool) {
-    let degs: [(f64, f64); 6] = [(-170.0, 170.0), (-190.0, 45.0), (-120.0, 156.0), (-185.0, 185.0), (-120.0, 120.0), (-350.0, 350.0)];
+    // whole, half and quarter degrees, and a sub-degree range
+    let degs: [(f64, f64); 6] = [(-170.0, 170.0), (-190.5, 45.25), (-137.5, 156.0), (-185.0, 185.75), (0.25, 0.75), (-350.0, 350.0)];
     let (lo, hi) = degs[j];
     match style {
         0 => {
